@@ -34,22 +34,25 @@ NameBad  == {"missing", "empty", "lead", "trail", "blank", "slash", "eq", "utf",
 NameNeed(t) == IF t = "digit" THEN 5 ELSE 3
 
 \* annotations: "none" member absent, "null" JSON null, "empty" {}: no annotations at all
-AnnGood == {"none", "null", "empty", "simple", "prefixed", "n63", "two"}
+\* "multiline": a value with line breaks and non-ASCII text (values are free-form)
+AnnGood == {"none", "null", "empty", "simple", "prefixed", "n63", "two", "multiline"}
 AnnBad  == {"emptykey", "n64", "badprefix", "threeparts", "leaddash", "toolarge", "list"}
-AnnNeed(t) == IF t \in {"simple", "prefixed", "n63", "two"} THEN 6 ELSE 3
+AnnNeed(t) == IF t \in {"simple", "prefixed", "n63", "two", "multiline"} THEN 6 ELSE 3
 
-EnvGood == {"ok", "emptyval", "twoeq"}
+\* "multiline": a value with a line break; "unicode": non-ASCII name and value; "spaces": blanks around name and value
+EnvGood == {"ok", "emptyval", "twoeq", "multiline", "unicode", "spaces"}
 EnvBad  == {"noeq", "noname", "empty", "null", "number"}
 
 NodeGood == {"path", "typed", "blk", "unbuf", "fifo", "perm", "permall", "permlong", "owner", "hostpath"}
 NodeBad  == {"null", "nopath", "emptypath", "badtype", "badperm", "strmajor", "unknown", "list"}
 NodeNeed(t) == IF t = "hostpath" THEN 5 ELSE 3
 
-MountGood == {"ok", "opts", "typed"}
+MountGood == {"ok", "opts", "typed", "richopts"}   \* "richopts": options with '=', ',', a blank and a line break
 MountBad  == {"null", "nohost", "emptyhost", "nocont", "emptycont", "unknown", "number"}
 MountNeed(t) == IF t = "typed" THEN 4 ELSE 3
 
-HookGood == {"prestart", "createRuntime", "createContainer", "startContainer", "poststart", "poststop", "full"}
+\* "rich": arguments and environment values with line breaks and non-ASCII text
+HookGood == {"prestart", "createRuntime", "createContainer", "startContainer", "poststart", "poststop", "full", "rich"}
 HookBad  == {"null", "badstage", "nostage", "nopath", "emptypath", "badenv", "unknown", "strtimeout"}
 
 \* "none" member absent, "null" JSON null: no RDT edit; every other token is an RDT edit
